@@ -1086,7 +1086,7 @@ theorem rmAnonS_spec (tbl : List TemplateSig) :
     · cases h
     · rename_i hc
       simp only at h
-      have hva' : VaOk (some (Expr.var m ("anon_var_" ++ label) Accs.nil)) := by
+      have hva' : VaOk (some (Expr.var m ("anon_var@" ++ label) Accs.nil)) := by
         intro v hv
         cases hv
         simp [hasE, hasAs]
